@@ -697,6 +697,7 @@ def run(ctx):
         "legacy layer talks to a firmware 2.8.1 board so that version-gated helpers transmit",
         "pause oracle is the statement's (durations in 1..750 summing to n), not a fixed chunking",
     ]
+    coverage["rule"] += ("; every number singled out in the four motion / serial modules' source (constant expressions folded) and the documented firmware defaults, with both signs, in each integer argument of each integer-argument helper in turn")
     return {"part": part, "coverage": coverage, "assumptions": assumptions}
 
 
